@@ -48,6 +48,8 @@ def py(term) -> str:
     if k in ("dict", "Dict", "Mapping"):
         return f"{k}[{py(term[1])}, {py(term[2])}]"
     if k == "tuple":
+        if not term[1]:
+            return "tuple[()]"  # the empty tuple type
         return f"tuple[{', '.join(py(a) for a in term[1])}]"
     if k == "opt":
         return f"Optional[{py(term[1])}]"
